@@ -38,6 +38,10 @@ type caseC17 struct {
 	// Rejected: before the real call the program makes this many calls with an empty DST and recovers from the
 	// documented panic (a server rejecting bad requests): hashing must still work afterwards.
 	Rejected int `json:"rejected,omitempty"`
+	// SingleP: the program runs with GOMAXPROCS=1 (one-vCPU container).
+	SingleP bool `json:"single_p,omitempty"`
+	// Arch386: the program is built for a 32-bit platform (GOARCH=386 binaries run natively on amd64).
+	Arch386 bool `json:"arch386,omitempty"`
 }
 
 var importPool = []string{"fmt", "os", "strings", "encoding/hex", "math/big", "crypto/rand", "crypto/sha512", "crypto/md5", "hash/fnv",
@@ -159,7 +163,7 @@ func runC17(c caseC17, o *gen.Obs) error {
 	o.ClassIf(otherLinks, "sha256-linked-by-others")
 	o.ClassIf(c.Wrap, "registry-replaced")
 	o.ClassIf(c.Rejected > 0, "after-rejected-calls")
-	o.NonTrivialIf(!otherLinks || c.Wrap || c.Rejected > 0)
+	o.NonTrivialIf(!otherLinks || c.Wrap || c.Rejected > 0 || c.SingleP || c.Arch386)
 
 	dir, err := os.MkdirTemp("", "verif-c17-")
 	if err != nil {
@@ -185,6 +189,10 @@ func runC17(c caseC17, o *gen.Obs) error {
 	}
 	build := exec.Command("go", "build", "-o", "prog", ".")
 	build.Dir, build.Env = dir, goEnv()
+	if c.Arch386 {
+		build.Env = append(build.Env, "GOARCH=386", "CGO_ENABLED=0")
+		o.Class("goarch=386")
+	}
 	if out, err := build.CombinedOutput(); err != nil {
 		// a build failure of the generated program is a harness/toolchain problem or a tree that does not compile
 		return &gen.Inconclusive{Msg: fmt.Sprintf("go build failed: %v\n%s", err, out)}
@@ -194,6 +202,10 @@ func runC17(c caseC17, o *gen.Obs) error {
 	run := exec.CommandContext(ctx, filepath.Join(dir, "prog"))
 	var stdout, stderr bytes.Buffer
 	run.Stdout, run.Stderr = &stdout, &stderr
+	if c.SingleP {
+		run.Env = append(os.Environ(), "GOMAXPROCS=1")
+		o.Class("single-p")
+	}
 	rerr := run.Run()
 	if ctx.Err() != nil {
 		// a hashing call of a few microseconds that has not returned after 20 s (in a process doing nothing else) never returns
@@ -245,6 +257,8 @@ var c17 = gen.Register(&gen.Check[caseC17]{
 			}
 		}
 		c.Wrap = gen.Chance(t, "wrap", 1, 4)
+		c.SingleP = gen.Chance(t, "singleP", 1, 3)
+		c.Arch386 = gen.Chance(t, "arch386", 1, 4)
 		if gen.Chance(t, "rejected", 1, 3) {
 			c.Rejected = rapid.SampledFrom([]int{1000, 70, 3, 300}).Draw(t, "nrej")
 		}
@@ -273,6 +287,9 @@ var c17 = gen.Register(&gen.Check[caseC17]{
 			{Fn: "HashToScalar", Msg: "616263", Dst: dst},
 			{Fn: "HashToScalar", Msg: "", Dst: hex.EncodeToString(bytes.Repeat([]byte{'L'}, 300))},
 			{Fn: "HashToGroup", Msg: "616263", Dst: dst, Wrap: true},
+			{Fn: "HashToGroup", Msg: "616263", Dst: dst, SingleP: true}, {Fn: "EncodeToGroup", Msg: "616263", Dst: dst, SingleP: true},
+			{Fn: "HashToScalar", Msg: "616263", Dst: dst, SingleP: true},
+			{Fn: "HashToGroup", Msg: "616263", Dst: dst, Arch386: true}, {Fn: "HashToScalar", Msg: "616263", Dst: dst, Arch386: true},
 			{Fn: "EncodeToGroup", Msg: "616263", Dst: dst, Rejected: 1000},
 			boundaryProgram("HashToGroup", 256, 0), boundaryProgram("HashToScalar", 256, 1), boundaryProgram("EncodeToGroup", 512, 0),
 			boundaryProgram("HashToGroup", 512, 1), boundaryProgram("HashToScalar", 1024, 0), boundaryProgram("HashToGroup", 1024, 1),
@@ -281,7 +298,7 @@ var c17 = gen.Register(&gen.Check[caseC17]{
 			{Fn: "HashToScalar", Msg: "616263", Dst: dst, Wrap: true, Imports: []string{"fmt"}},
 		}
 	},
-	Required: []string{"imports:none", "sha256-not-linked-by-others", "registry-replaced", "after-rejected-calls"},
+	Required: []string{"imports:none", "sha256-not-linked-by-others", "registry-replaced", "after-rejected-calls", "single-p", "goarch=386"},
 	Run:      runC17,
 })
 
